@@ -3,7 +3,10 @@
 // named by $VERIF_REPLAY.
 package zzverif
 
-import "fmt"
+import (
+	"fmt"
+	"runtime"
+)
 
 // Vector is the replay vector (filled by package zzverifrun natively).
 type Vector struct {
@@ -161,6 +164,18 @@ func IteU8(c bool, a, b uint8) uint8 {
 		return a
 	}
 	return b
+}
+
+// AllocGuard runs f; under the engine every single allocation inside f larger than limit bytes is a
+// violation ("alloc-bound"); natively the bytes allocated while f runs are measured.
+func AllocGuard(limit int, f func()) {
+	var a, b runtime.MemStats
+	runtime.ReadMemStats(&a)
+	f()
+	runtime.ReadMemStats(&b)
+	if b.TotalAlloc-a.TotalAlloc > uint64(limit)+(64<<10) {
+		panic(Failure{"alloc-bound"})
+	}
 }
 
 // Panics runs f and reports whether it panicked (ordinary Go; interpreted by the engine as is).
